@@ -276,6 +276,16 @@ fn main() {
                             }
                         }
                     }
+                    // container forms (Vec, Box<[T]>) follow the same contract
+                    if let Some([vc, bc, vu, bu]) = ct::convert_containers(i, j, x) {
+                        m.evals(4);
+                        if !same(&vc, &want_cl) || !same(&bc, &want_cl) {
+                            m.violate(&inst, "container_from_color_not_unclamped_then_clamp", inp(), json!({"vec": fvec(&vc), "box": fvec(&bc)}), fvec(&want_cl), "");
+                        }
+                        if !same(&vu, &un) || !same(&bu, &un) {
+                            m.violate(&inst, "container_from_color_unclamped_differs", inp(), json!({"vec": fvec(&vu), "box": fvec(&bu)}), fvec(&un), "");
+                        }
+                    }
                     m.cell(pvmon::rng::mix(pi as u64, within as u64));
                 }
             }
